@@ -1,6 +1,7 @@
 import Mathlib.Data.List.Nodup
 import Proofs.RingConv
 import Proofs.RingGenEq
+import Proofs.ReorgGenEq
 
 /-!
 # C09 — replay buffers hold exactly the most recent transitions, each one intact
@@ -279,6 +280,357 @@ example : (genMaRun (fun n => [n, n + 1]) 2 [(1, false), (5, true)]).map (fun st
     = some ([5, 6], 3) := by decide
 
 end source_translation
+
+/-! ## the per-environment split of vectorised multi-agent experiences and the shape normalisation of single-agent
+transitions, brought inside the model
+
+`Model/Ring.lean` (section Reorg): a vectorised experience field is an association list agent ↦ value, a value an
+array (list of per-environment rows), a dict of arrays or a tuple of arrays.  `Gen/ReorgGen.lean` is the translation
+of `_reorganize_dicts`, `_add`, `save_to_memory*` (multi_agent_replay_buffer.py), of `to_tensordict`,
+`to_torch_tensor`, `Transition.__post_init__` (data.py) and of the reshape loop of `ReplayBuffer.add`;
+`Proofs/ReorgGenEq.lean` proves generated = model.  All theorems hold for every number of fields, agents,
+environments, container kinds and key orders. -/
+section reorg
+variable {κ α : Type}
+
+/-- **(i) `_reorganize_dicts` is the transpose.**  When the call succeeds, the result has one list per field, each
+    with one dict per environment (`n` = length of the first value of the first field), and entry `i` of list `j`
+    is exactly column `i` of field `j`: `results[j][i] = fieldCol i args[j]` — nothing lost, nothing duplicated. -/
+theorem C09_reorganize_is_transpose (args : List (Field κ α)) (res : List (List (EnvField κ α)))
+    (h : reorganizeDicts args = some res) :
+    ∃ n, numEntries args = some n ∧ res.length = args.length ∧ (∀ l ∈ res, l.length = n) ∧
+      ∀ (j : Nat) (hj : j < args.length) (i : Nat), i < n →
+        ∃ d, fieldCol i args[j] = some d ∧ (res[j]?.bind (·[i]?)) = some d := by
+  unfold reorganizeDicts at h
+  cases hp : perEnv args with
+  | none => simp [hp] at h
+  | some envs =>
+    simp only [hp, Option.some.injEq] at h
+    subst h
+    obtain ⟨_, hl, n, hn, hen⟩ := perEnv_lengths args envs hp
+    obtain ⟨t1, t2⟩ := transposeTo_length args.length envs hl
+    refine ⟨n, hn, t1, fun l hl' => by rw [t2 l hl', hen], ?_⟩
+    intro j hj i hi
+    rw [transposeTo_get args.length envs hl i j hj]
+    unfold perEnv at hp
+    simp only [hn] at hp
+    have g1 := optAll_getElem _ _ hp i (by simpa using hi)
+    simp only [List.getElem?_map, List.getElem?_range hi, Option.map_some, envTransition] at g1
+    have hi' : i < envs.length := by omega
+    rw [List.getElem?_eq_getElem hi'] at g1 ⊢
+    have g2 := optAll_getElem _ _ (Option.some.inj g1) j (by simpa using hj)
+    simp only [List.getElem?_map, List.getElem?_eq_getElem hj, Option.map_some] at g2
+    have hj' : j < envs[i].length := by rw [hl _ (List.getElem_mem _)]; exact hj
+    rw [List.getElem?_eq_getElem hj'] at g2
+    exact ⟨envs[i][j], Option.some.inj g2, by simp [List.getElem?_eq_getElem hj']⟩
+
+/-- **(i, inside one field)** column `i` of a field keeps the agents and their order, and every agent's entry is
+    column `i` of that agent's own value -/
+theorem C09_reorganize_keeps_agents (i : Nat) (f : Field κ α) (d : EnvField κ α) (h : fieldCol i f = some d) :
+    d.map Prod.fst = f.map Prod.fst ∧
+    ∀ (a : Nat) (ha : a < f.length), ∃ e, Val.col i f[a].2 = some e ∧ d[a]? = some (f[a].1, e) := by
+  unfold fieldCol at h
+  have hlen := optAll_length _ _ h
+  simp only [List.length_map] at hlen
+  have pt : ∀ (a : Nat) (ha : a < f.length), ∃ e, Val.col i f[a].2 = some e ∧ d[a]? = some (f[a].1, e) := by
+    intro a ha
+    have g := optAll_getElem _ _ h a (by simpa using ha)
+    simp only [List.getElem?_map, List.getElem?_eq_getElem ha, Option.map_some] at g
+    cases hc : Val.col i f[a].2 with
+    | none => simp [hc] at g; omega
+    | some e =>
+      simp only [hc, Option.some.injEq] at g
+      exact ⟨e, rfl, g.symm⟩
+  refine ⟨?_, pt⟩
+  apply List.ext_getElem (by simp [hlen])
+  intro a h1 h2
+  have ha : a < f.length := by simpa using h2
+  obtain ⟨e, _, he⟩ := pt a ha
+  have hd : a < d.length := by omega
+  rw [List.getElem?_eq_getElem hd] at he
+  simp [Option.some.inj he]
+
+/-- **(i, inside one value)** an array contributes its row `i`; a dict of arrays contributes, under the same
+    sub-keys in the same order, row `i` of each member; a tuple of arrays row `i` of each member in order -/
+theorem C09_reorganize_entry (i : Nat) :
+    (∀ (rows : List α) (e : Ent κ α), Val.col i (Val.arr rows : Val κ α) = some e ↔ ∃ r, rows[i]? = some r ∧ e = Ent.arr r) ∧
+    (∀ (kv : List (κ × List α)) (e : Ent κ α), Val.col i (Val.dict kv : Val κ α) = some e →
+      ∃ l, e = Ent.dict l ∧ l.map Prod.fst = kv.map Prod.fst ∧
+        ∀ (k : Nat) (hk : k < kv.length), ∃ r, kv[k].2[i]? = some r ∧ l[k]? = some (kv[k].1, r)) ∧
+    (∀ (xs : List (List α)) (e : Ent κ α), Val.col i (Val.tup xs : Val κ α) = some e →
+      ∃ l, e = Ent.tup l ∧ l.length = xs.length ∧ ∀ (k : Nat) (hk : k < xs.length), xs[k][i]? = l[k]?) := by
+  refine ⟨?_, ?_, ?_⟩
+  · intro rows e
+    show (match rows[i]? with | none => none | some r => some (Ent.arr r)) = some e ↔ _
+    cases rows[i]? with
+    | none => simp
+    | some r => simp [eq_comm]
+  · intro kv e h0
+    have h : (match optAll (kv.map (fun p => match p.2[i]? with | none => none | some r => some (p.1, r))) with
+        | none => none | some l => some (Ent.dict l : Ent κ α)) = some e := h0
+    cases ho : optAll (kv.map (fun p => match p.2[i]? with | none => none | some r => some (p.1, r))) with
+    | none => simp [ho] at h
+    | some l =>
+      simp only [ho, Option.some.injEq] at h
+      have hlen := optAll_length _ _ ho
+      simp only [List.length_map] at hlen
+      have pt : ∀ (k : Nat) (hk : k < kv.length), ∃ r, kv[k].2[i]? = some r ∧ l[k]? = some (kv[k].1, r) := by
+        intro k hk
+        have g := optAll_getElem _ _ ho k (by simpa using hk)
+        simp only [List.getElem?_map, List.getElem?_eq_getElem hk, Option.map_some] at g
+        cases hc : kv[k].2[i]? with
+        | none => simp [hc] at g; omega
+        | some r =>
+          simp only [hc, Option.some.injEq] at g
+          exact ⟨r, rfl, g.symm⟩
+      refine ⟨l, h.symm, ?_, pt⟩
+      apply List.ext_getElem (by simp [hlen])
+      intro a h1 h2
+      have ha : a < kv.length := by simpa using h2
+      obtain ⟨r, _, hr⟩ := pt a ha
+      have hd : a < l.length := by omega
+      rw [List.getElem?_eq_getElem hd] at hr
+      simp [Option.some.inj hr]
+  · intro xs e h0
+    have h : (match optAll (xs.map (fun v => v[i]?)) with
+        | none => none | some l => some (Ent.tup l : Ent κ α)) = some e := h0
+    cases ho : optAll (xs.map (fun v => v[i]?)) with
+    | none => simp [ho] at h
+    | some l =>
+      simp only [ho, Option.some.injEq] at h
+      have hlen := optAll_length _ _ ho
+      simp only [List.length_map] at hlen
+      refine ⟨l, h.symm, hlen, ?_⟩
+      intro k hk
+      have g := optAll_getElem _ _ ho k (by simpa using hk)
+      simpa [List.getElem?_map, List.getElem?_eq_getElem hk] using g
+
+/-- **(iii) the number of environments is read off the first value of the first field only.**  If any array of any
+    field and agent has FEWER rows than that, the call raises (IndexError) and nothing is stored … -/
+theorem C09_reorganize_short_field_raises (args : List (Field κ α)) (n : Nat) (hn : numEntries args = some n)
+    (f : Field κ α) (hf : f ∈ args) (k : κ) (rows : List α) (hk : (k, Val.arr rows) ∈ f) (hshort : rows.length < n) :
+    reorganizeDicts args = none ∧ perEnv args = none := by
+  have hcol : fieldCol rows.length f = none := by
+    unfold fieldCol
+    apply optAll_none_of_mem
+    refine List.mem_map.mpr ⟨(k, Val.arr rows), hk, ?_⟩
+    simp [Val.col]
+  have henv : envTransition args rows.length = none := by
+    unfold envTransition
+    exact optAll_none_of_mem _ (List.mem_map.mpr ⟨f, hf, hcol⟩)
+  have hp : perEnv args = none := by
+    unfold perEnv
+    simp only [hn]
+    exact optAll_none_of_mem _ (List.mem_map.mpr ⟨rows.length, List.mem_range.mpr hshort, henv⟩)
+  exact ⟨by simp [reorganizeDicts, hp], hp⟩
+
+/-- … but an array with MORE rows is cut silently: here the reward field carries three environments, the state
+    field (first) two; the call succeeds, two transitions come out and row `30` is dropped without an error.
+    (`save_to_memory` is only called with equally long fields by the training loops; the property's "nothing
+    lost" holds under that precondition, stated as `hsame` in `C09_reorganize_nothing_lost`.) -/
+theorem C09_reorganize_silent_truncation_witness :
+    reorganizeDicts ([[(0, Val.arr [1, 2])], [(0, Val.arr [10, 20, 30])]] : List (Field Nat Nat))
+      = some [[[(0, Ent.arr 1)], [(0, Ent.arr 2)]], [[(0, Ent.arr 10)], [(0, Ent.arr 20)]]] := by rfl
+
+/-- **nothing lost**: when every array has exactly `n` rows (`hsame`, stated for plain arrays), every row of every
+    array of every field and agent appears in the result, at (field `j`, environment `i`, same agent position) -/
+theorem C09_reorganize_nothing_lost (args : List (Field κ α)) (res : List (List (EnvField κ α)))
+    (h : reorganizeDicts args = some res) (j : Nat) (hj : j < args.length) (a : Nat) (ha : a < args[j].length)
+    (rows : List α) (hv : args[j][a].2 = Val.arr rows) (i : Nat) (hi : i < rows.length)
+    (n : Nat) (hn : numEntries args = some n) (hsame : rows.length = n) :
+    ∃ d, (res[j]?.bind (·[i]?)) = some d ∧ d[a]? = some (args[j][a].1, Ent.arr rows[i]) := by
+  obtain ⟨n', hn', _, _, hall⟩ := C09_reorganize_is_transpose args res h
+  have : n' = n := by rw [hn] at hn'; exact (Option.some.inj hn').symm
+  subst this
+  obtain ⟨d, hd, hr⟩ := hall j hj i (by omega)
+  obtain ⟨_, hag⟩ := C09_reorganize_keeps_agents i args[j] d hd
+  obtain ⟨e, he, hda⟩ := hag a ha
+  rw [hv] at he
+  simp only [Val.col, List.getElem?_eq_getElem hi, Option.some.injEq] at he
+  exact ⟨d, hr, by rw [hda, ← he]⟩
+
+section source_translation_reorg
+open ReorgGen
+variable [DecidableEq κ]
+
+/-- **(i) over the generated code**: the translated `_reorganize_dicts` (three nested loops, `maybe_to_array`,
+    `results[j].append`) returns, whenever it returns, exactly the transpose; it raises exactly when the model
+    says so.  Assumed: `np.array(x)` keeps the content of a row; dict keys are distinct. -/
+theorem C09_source_translation_reorg_is_transpose (np : α → α) (isnd : α → Bool) (hnp : ∀ x, np x = x)
+    (args : List (Field κ α)) (hkeys : ∀ f ∈ args, (f.map Prod.fst).Nodup) (res : List (List (EnvField κ α)))
+    (h : MultiAgentReplayBuffer.reorganize_dicts np isnd args = some res) :
+    ∃ n, numEntries args = some n ∧ res.length = args.length ∧ (∀ l ∈ res, l.length = n) ∧
+      ∀ (j : Nat) (hj : j < args.length) (i : Nat), i < n →
+        ∃ d, fieldCol i args[j] = some d ∧ (res[j]?.bind (·[i]?)) = some d := by
+  rw [gen_reorganize_dicts_eq np isnd hnp args hkeys] at h
+  exact C09_reorganize_is_transpose args res h
+
+/-- **(iii) over the generated code**: a shorter array anywhere makes the translated call raise; the longer one of
+    the witness is cut silently by the translated code as well -/
+theorem C09_source_translation_reorg_length_mismatch (np : α → α) (isnd : α → Bool) (hnp : ∀ x, np x = x)
+    (args : List (Field κ α)) (hkeys : ∀ f ∈ args, (f.map Prod.fst).Nodup) (n : Nat) (hn : numEntries args = some n)
+    (f : Field κ α) (hf : f ∈ args) (k : κ) (rows : List α) (hk : (k, Val.arr rows) ∈ f) (hshort : rows.length < n) :
+    MultiAgentReplayBuffer.reorganize_dicts np isnd args = none := by
+  rw [gen_reorganize_dicts_eq np isnd hnp args hkeys]
+  exact (C09_reorganize_short_field_raises args n hn f hf k rows hk hshort).1
+
+theorem C09_source_translation_reorg_silent_truncation_witness :
+    MultiAgentReplayBuffer.reorganize_dicts id (fun _ => true)
+      ([[(0, Val.arr [1, 2])], [(0, Val.arr [10, 20, 30])]] : List (Field Nat Nat))
+      = some [[[(0, Ent.arr 1)], [(0, Ent.arr 2)]], [[(0, Ent.arr 10)], [(0, Ent.arr 20)]]] := by rfl
+
+/-- **(ii) `save_to_memory_vect_envs` appends exactly `num_envs` transitions in environment order**: the translated
+    method (`_reorganize_dicts`, `zip(*…)`, `_add`, `counter += 1`) raises iff the split raises; otherwise the deque
+    holds the last `m` of (what it held ++ the per-environment transitions), the counter grows by their number,
+    and the number is `numEntries`. -/
+theorem C09_source_translation_reorg_vect_appends (np : α → α) (isnd : α → Bool) (hnp : ∀ x, np x = x)
+    (st : MA κ α) (m : Nat) (hinv : MAInv st m) (args : List (Field κ α)) (hkeys : ∀ f ∈ args, (f.map Prod.fst).Nodup) :
+    (perEnv args = none → MultiAgentReplayBuffer.save_to_memory np isnd st args [] true = none) ∧
+    (∀ envs, perEnv args = some envs →
+      ∃ st', MultiAgentReplayBuffer.save_to_memory np isnd st args [] true = some st' ∧ MAInv st' m ∧
+        st'.memory.items = lastN m (st.memory.items ++ envs) ∧ st'.counter = st.counter + envs.length ∧
+        numEntries args = some envs.length) := by
+  have g := gen_reorg_vect_eq np isnd hnp st m hinv args hkeys
+  constructor
+  · intro hp
+    rw [hp] at g
+    simp [MultiAgentReplayBuffer.save_to_memory, g]
+  · intro envs hp
+    rw [hp] at g
+    obtain ⟨st', e, i, it, c⟩ := g
+    obtain ⟨_, _, n, hn, hl⟩ := perEnv_lengths args envs hp
+    exact ⟨st', by simp [MultiAgentReplayBuffer.save_to_memory, e], i, it, c, by rw [hn, hl]⟩
+
+/-- a call of `save_to_memory`: vectorised arguments or one transition -/
+inductive MACall (κ α : Type) where
+  | vect (args : List (Field κ α))
+  | single (t : Trans κ α)
+
+/-- what a sequence of calls adds, in order (`none` if a vectorised call raises) -/
+def maCallHist : List (MACall κ α) → Option (List (Trans κ α))
+  | [] => some []
+  | MACall.vect a :: r => match perEnv a, maCallHist r with | some e, some h => some (e ++ h) | _, _ => none
+  | MACall.single t :: r => match maCallHist r with | some h => some (t :: h) | none => none
+
+/-- the generated buffer after a sequence of generated `save_to_memory` calls -/
+def genReorgRun (np : α → α) (isnd : α → Bool) (st : MA κ α) (calls : List (MACall κ α)) : Option (MA κ α) :=
+  calls.foldlM (fun s c => match c with
+    | MACall.vect a => MultiAgentReplayBuffer.save_to_memory np isnd s a [] true
+    | MACall.single t => MultiAgentReplayBuffer.save_to_memory np isnd s [] t false) st
+
+/-- **(ii) lifted to histories**: after any sequence of single and vectorised calls (none of which raises) the
+    buffer holds exactly the last `m` per-environment transitions, each one the transpose column of its call,
+    in order of addition; the counter counts them -/
+theorem C09_source_translation_reorg_last_n (np : α → α) (isnd : α → Bool) (hnp : ∀ x, np x = x) (m : Nat) :
+    ∀ (calls : List (MACall κ α)) (st : MA κ α) (hist : List (Trans κ α)), MAInv st m →
+      (∀ c ∈ calls, ∀ a, c = MACall.vect a → ∀ f ∈ a, (f.map Prod.fst).Nodup) →
+      maCallHist calls = some hist →
+      ∃ st', genReorgRun np isnd st calls = some st' ∧ MAInv st' m ∧
+        st'.memory.items = lastN m (st.memory.items ++ hist) ∧ st'.counter = st.counter + hist.length := by
+  intro calls
+  induction calls with
+  | nil =>
+    intro st hist hinv _ hh
+    simp only [maCallHist, Option.some.injEq] at hh
+    subst hh
+    refine ⟨st, rfl, hinv, ?_, by simp⟩
+    have := hinv.len
+    simp only [List.append_nil, lastN]
+    have : st.memory.items.length - m = 0 := by omega
+    simp [this]
+  | cons c rest ih =>
+    intro st hist hinv hkeys hh
+    cases c with
+    | vect a =>
+      simp only [maCallHist] at hh
+      cases hp : perEnv a with
+      | none => simp [hp] at hh
+      | some envs =>
+        cases hr : maCallHist rest with
+        | none => simp [hp, hr] at hh
+        | some h' =>
+          simp only [hp, hr, Option.some.injEq] at hh
+          subst hh
+          obtain ⟨st1, e1, i1, it1, c1, _⟩ :=
+            (C09_source_translation_reorg_vect_appends np isnd hnp st m hinv a
+              (hkeys _ (by simp) a rfl)).2 envs hp
+          obtain ⟨st2, e2, i2, it2, c2⟩ := ih st1 h' i1 (fun c hc => hkeys c (List.mem_cons_of_mem _ hc)) hr
+          refine ⟨st2, by simp only [genReorgRun, List.foldlM_cons, e1]; exact e2, i2, ?_, ?_⟩
+          · rw [it2, it1, lastN_append_lastN, List.append_assoc]
+          · rw [c2, c1]; simp only [List.length_append]; push_cast; omega
+    | single t =>
+      simp only [maCallHist] at hh
+      cases hr : maCallHist rest with
+      | none => simp [hr] at hh
+      | some h' =>
+        simp only [hr, Option.some.injEq] at hh
+        subst hh
+        obtain ⟨st1, e1, i1, it1, c1⟩ := gen_reorg_single_eq np isnd st m hinv t
+        obtain ⟨st2, e2, i2, it2, c2⟩ := ih st1 h' i1 (fun c hc => hkeys c (List.mem_cons_of_mem _ hc)) hr
+        refine ⟨st2, ?_, i2, ?_, ?_⟩
+        · simp only [genReorgRun, List.foldlM_cons, MultiAgentReplayBuffer.save_to_memory, e1]
+          exact e2
+        · rw [it2, it1, lastN_append_lastN]; simp
+        · rw [c2, c1]; simp only [List.length_cons]; push_cast; omega
+
+/-- **(iv) shape normalisation, unvectorised path**: a scalar reward / done (`shape = []`, one number `x`) leaves
+    `Transition.__post_init__` with shape `[1]`; after the caller's `unsqueeze(0)` it is `[1, 1]`, `batch_size = [1]`
+    is accepted, `add` sees `_n_transitions = 1`, its reshape loop leaves the leaf alone, and the single row is `[x]`:
+    exactly one row per add -/
+theorem C09_source_translation_reorg_scalar_one_row (t : Transition α) (x y : α)
+    (hr : t.reward = { shape := [], data := [x] }) (hd : t.done = { shape := [], data := [y] }) :
+    ∃ t', t.post_init = some t' ∧ t'.reward.shape = [1] ∧ t'.done.shape = [1] ∧
+      t'.reward.unsqueeze0.batchOk 1 = true ∧ t'.done.unsqueeze0.batchOk 1 = true ∧
+      add_n_transitions [1] = some 1 ∧
+      add_leaf_top 1 t'.reward.unsqueeze0 = some t'.reward.unsqueeze0 ∧
+      t'.reward.unsqueeze0.row 0 = [x] ∧ t'.done.unsqueeze0.row 0 = [y] := by
+  obtain ⟨t', e, r1, r2, d1, d2, _⟩ := gen_post_init_eq t
+  refine ⟨t', e, ?_, ?_, ?_, ?_, by decide, ?_, ?_, ?_⟩ <;>
+    simp [PyT.unsqueeze0, PyT.batchOk, PyT.row, add_leaf_top, PyT.ndim, r1, r2, d1, d2, hr, hd, normLeaf]
+
+/-- **(iv) vectorised path**: a reward of `E` environments (`shape = [E]`) passes `__post_init__` unchanged,
+    `batch_size = [E]` is accepted, `add` sees `_n_transitions = E`, the reshape loop makes it `(E, 1)` without
+    touching the content, and row `e` is `[rs[e]]`: `E` rows, in environment order -/
+theorem C09_source_translation_reorg_vector_rows (t : Transition α) (rs : List α)
+    (hr : t.reward = { shape := [rs.length], data := rs }) :
+    ∃ t' v, t.post_init = some t' ∧ t'.reward = t.reward ∧ t'.reward.batchOk rs.length = true ∧
+      add_n_transitions [rs.length] = some rs.length ∧
+      add_leaf_top rs.length t'.reward = some v ∧ add_leaf_nested rs.length t'.reward = some v ∧
+      v.shape = [rs.length, 1] ∧ ∀ (e : Nat) (he : e < rs.length), v.row e = [rs[e]] := by
+  obtain ⟨t', e, r1, r2, _⟩ := gen_post_init_eq t
+  have hrew : t'.reward = t.reward := by
+    cases h : t'.reward; cases h2 : t.reward
+    simp only [h, h2, hr, normLeaf] at r1 r2 hr
+    simp_all
+  obtain ⟨v, a1, a2, a3, a4⟩ := gen_add_leaf_eq rs.length t'.reward (by rw [hrew, hr]; simp)
+  refine ⟨t', v, e, hrew, by simp [hrew, hr, PyT.batchOk], by simp [add_n_transitions, pyIndex], a1, a2, ?_, ?_⟩
+  · rw [a3, hrew, hr]; simp [addLeafShape]
+  · intro e he
+    have hs : v.shape = [rs.length, 1] := by rw [a3, hrew, hr]; simp [addLeafShape]
+    have hdv : v.data = rs := by rw [a4, hrew, hr]
+    simp [PyT.row, hs, hdv, List.take_one, he]
+
+/-- **(iv) keys**: a tuple observation of `k` members becomes a TensorDict with keys `tuple_obs_0 … tuple_obs_{k-1}`
+    holding the members in order; a dict observation keeps its keys and order -/
+theorem C09_source_translation_reorg_obs_keys (xs : List (PyT α)) (kv : List (String × PyT α)) :
+    (∃ l, to_tensordict (PyObs.tup xs) = PyObsTD.td l ∧ l.map Prod.fst = tupleKeys xs.length ∧ l.map Prod.snd = xs) ∧
+    to_tensordict (PyObs.dict kv) = PyObsTD.td kv :=
+  ⟨gen_to_tensordict_tuple_eq xs, rfl⟩
+
+/-! non-vacuity: a concrete vectorised call with a plain, a dict and a tuple member, keys in different orders -/
+example : MultiAgentReplayBuffer.reorganize_dicts id (fun _ => false)
+    ([[(1, Val.arr [11, 12]), (0, Val.dict [(7, [71, 72]), (5, [51, 52])])], [(0, Val.tup [[1, 2], [3, 4]]), (1, Val.arr [8, 9])]]
+      : List (Field Nat Nat))
+    = some [[[(1, Ent.arr 11), (0, Ent.dict [(7, 71), (5, 51)])], [(1, Ent.arr 12), (0, Ent.dict [(7, 72), (5, 52)])]],
+            [[(0, Ent.tup [1, 3]), (1, Ent.arr 8)], [(0, Ent.tup [2, 4]), (1, Ent.arr 9)]]] := by rfl
+example : MAInv ({ memory := { maxlen := some 2, items := [] }, counter := 0 } : MA Nat Nat) 2 := ⟨rfl, by decide⟩
+example : ((MultiAgentReplayBuffer.save_to_memory id (fun _ => true)
+      ({ memory := { maxlen := some 2, items := [] }, counter := 0 } : MA Nat Nat)
+      [[(0, Val.arr [1, 2, 3])], [(0, Val.arr [10, 20, 30])]] [] true).map (fun st => (st.memory.items, st.counter)))
+    = some ([[[(0, Ent.arr 2)], [(0, Ent.arr 20)]], [[(0, Ent.arr 3)], [(0, Ent.arr 30)]]], 3) := by rfl
+
+end source_translation_reorg
+end reorg
 
 /-! non-vacuity: concrete wrap-around histories satisfy the hypotheses and the conclusions
     are the expected concrete buffers -/
